@@ -125,6 +125,9 @@ func decAlphabet(n *DecNode, decoder bool) []DecOp {
 	}
 	addBlk([]lz.Seq{{LitLen: 2, MatchLen: 1, Offset: 1}}, 0, true)
 	addBlk([]lz.Seq{{LitLen: 1, MatchLen: 2, Offset: 1}}, 0, true)
+	// the literal slice is one byte short for the SECOND sequence only (its LitLen exceeds what is left but not the block's total)
+	addBlk([]lz.Seq{{LitLen: 1, MatchLen: 1, Offset: 1}, {LitLen: 2, MatchLen: 1, Offset: 1}}, 0, true)
+	addBlk([]lz.Seq{{LitLen: 2, MatchLen: 1, Offset: 1}, {LitLen: 2, MatchLen: 1, Offset: 2}}, 0, true)
 	addBlk(nil, 0, false)
 	addBlk(nil, 1, false)
 	addBlk(nil, max(free, 0)+1, false)
